@@ -1174,6 +1174,11 @@ class C09(core.Check):
         for fam in ("face", "loft", "shape", "sketch", "curve", "edge"):
             for _ in range(2 * mult):
                 cases.append({"kind": "ent", "ent": gen_entity(rng, fam), "steps": [], "mode": "method", "copy": True})
+        # boundary stream: a zero axis / zero normal (the library divides by the norm: NaN, no guard); the model must
+        # not invent a value there (`degenerate`), and nothing is claimed about the geometry
+        for fam in ("point", "array", "face"):
+            for step in ({"k": "R", "w": "2", "a": ["0", "0", "0"], "o": ["1", "0", "0"]}, {"k": "M", "n": ["0", "0", "0"], "o": ["1", "0", "0"]}):
+                cases.append({"kind": "ent", "ent": gen_entity(rng, fam), "steps": [step], "mode": rng.choice(["method", "list"]), "copy": False, "degenerate": True})
         # primitives with caller-owned arrays
         for _ in range(40 * mult):
             fn = rng.choice(["f.rotate", "f.scale", "f.mirror", "Point", "Array"])
@@ -1315,6 +1320,8 @@ class C09(core.Check):
         return centres, aff
 
     def _centres_for_model(self, case, impl):
+        if case.get("degenerate"):
+            return [None] * len(case["steps"])
         exp, _ = self._expected_centres(case, impl)
         out = []
         for i, s in enumerate(case["steps"]):
@@ -1340,6 +1347,13 @@ class C09(core.Check):
                 if not all(_close(a, b, scale) for a, b in zip(m, r)):
                     return f"{case['fn']} {case['step']}: model {[float(x) for x in m]}, implementation {r}"
             return None
+        if case.get("degenerate") or ans == "degenerate":
+            nan = any(c != c for t in impl.get("tree1", []) if t[0] in "PD" for c in t[2]) or any(
+                c != c for t in impl.get("tree1", []) if t[0] == "A" for r in t[2] for c in r
+            )
+            if ans == "degenerate" and (nan or "raised" in impl):
+                return None
+            return f"degenerate parameters: model answers {ans[:60]}, implementation " + ("produces NaN" if nan else "produces finite values")
         dec = dec_answer(ans)
         if dec is None:
             return f"model answers {ans[:120]}"
@@ -1365,6 +1379,8 @@ class C09(core.Check):
                 if not _near(e, r, REL_TOL * (1 + max(abs(c) for c in e))):
                     out.append({"site": f"{case['fn']}.{s['k']}:wrong-image", "what": f"{case['fn']} of {p} under {s}", "observed": r, "expected": e})
                     break
+            return out
+        if case.get("degenerate"):
             return out
         cls = _top_class(case["ent"])
         kinds = "+".join(sorted({s["k"] for s in case["steps"]})) or "none"
@@ -1459,6 +1475,8 @@ class C09(core.Check):
     def classify(self, case, impl):
         if case["kind"] == "prim":
             return "prim:" + case["fn"] + ":" + case["step"]["k"]
+        if case.get("degenerate"):
+            return "degenerate:" + case["steps"][0]["k"]
         kinds = "+".join(sorted({s["k"] for s in case["steps"]})) or "none"
         return f"{_top_class(case['ent'])}:{kinds}:{case['mode']}" + (":copy" if case["copy"] else "")
 
